@@ -179,6 +179,7 @@ type loopInfo struct {
 	spec      *LoopSpec
 	// range loops
 	rangeIdx  *ssa.Alloc // rangeindex cell of a range-over-slice loop
+	idxCell   *ssa.Alloc // index variable of a hand-written loop 'for i ...; i < n; i++'
 	rangeLen  ssa.Value
 	rangeColl ssa.Value
 	rng       *ssa.Range // range over map
